@@ -66,7 +66,7 @@ func (t *Transaction) Confirm() error {
 
 func (t *Transaction) rollback() {
 	ctx := context.Background()
-	t.transactionManager.Rollback(ctx, t.GetRollbackTransaction())
+	t.transactionManager.rollbackExpired(ctx, t)
 }
 
 func (t *Transaction) StartRollbackTimer() error {
